@@ -43,7 +43,7 @@ def checksum_ref(ex, n):
 
 
 @ob("C14", "corrupted_checksum_is_refused", quick=[dict(n=n) for n in (1, 2)], thorough=[dict(n=n) for n in (0, 1, 2, 3)],
-    bound="descriptor body of n symbolic characters with its correct checksum, one checksum character (symbolic position) replaced by a different checksum-alphabet character: strip_checksum refuses",
+    bound="descriptor body of n symbolic characters with its correct checksum, one checksum character (symbolic position) replaced by any other printable ASCII character: strip_checksum refuses",
     functions=["btclib.descriptors.descriptors.strip_checksum"], timeout=900, weight=3, min_ok=0, query_timeout_ms=180000,
     outside=["single-character error detection for bodies longer than 3 characters after 'pk(' (XOR-network unsatisfiability: z3 answers unknown at 180 s from 5 symbolic characters on)"])
 def corrupted(ex, n):
@@ -57,9 +57,7 @@ def corrupted(ex, n):
     cs = D.checksum(s)
     cs_codes = [ord(ch) for ch in cs] if type(cs) is str else list(cs.items)
     pos = ex.int("pos", 0, 7)
-    repl = ex.int("repl", 0, 31)
-    alphabet = [ord(ch) for ch in bip380.CHECKSUM_CHARSET]
-    new = alphabet[repl]
+    new = ex.int("repl", 33, 126)       # any printable character (upper-case twins of checksum letters included)
     bad = [ite(pos == i, new, cs_codes[i]) for i in range(8)]
     ex.assume(sor(*[sand(pos == i, new != cs_codes[i]) for i in range(8)]))
     if ex.concrete:
